@@ -7,6 +7,7 @@ package sim
 import (
 	"encoding/json"
 	"fmt"
+	"math"
 	"net/http"
 	"reflect"
 	"sort"
@@ -200,6 +201,13 @@ func (v Val) Go() any {
 		p := reflect.New(reflect.TypeOf(inner))
 		p.Elem().Set(reflect.ValueOf(inner))
 		return p.Interface()
+	case "nilptr":
+		// a typed nil pointer: the conversion of data dereferences it
+		return (*struct{ Name string })(nil)
+	case "nan":
+		return math.NaN()
+	case "inf":
+		return math.Inf(1)
 	case "chan":
 		return make(chan int)
 	case "func":
